@@ -163,4 +163,48 @@ theorem C33_entity_flush (H : Hooks) (princ saveList : State → Nat → List Na
     rfl
   · exact hsv3
 
+/-! ### the hypotheses are satisfiable: concrete flushes with hooks that create and modify -/
+
+/-- object 0 is loaded, object 1 modified (queued), object 2 created (queued) -/
+def demo : State :=
+  { objs := [⟨.loaded, 0⟩, ⟨.modified, 1⟩, ⟨.created, 1⟩], queue := [some 1, some 2], modified := true, saved := [], trace := [] }
+
+/-- before_update of 1 modifies the loaded object 0 and creates an object; after_insert of 2 modifies 2 once (a second round) -/
+def demoHooks : Hooks :=
+  { before := fun k _ o => if k = .update ∧ o = 1 then [.modify 0, .create] else [],
+    after := fun k s o => if k = .insert ∧ o = 2 ∧ s.trace.count (.after .insert 2) = 1 then [.modify 2] else [] }
+
+theorem demo_inv : Inv demo := by
+  refine ⟨?_, by decide, ?_, ?_⟩
+  · intro o
+    match o with
+    | 0 => simp [demo, State.kindAt, kindOf]
+    | 1 => simp [demo, State.kindAt, kindOf]
+    | 2 => simp [demo, State.kindAt, kindOf]
+    | n + 3 => simp [demo, State.kindAt]
+  · intro o ob h _
+    match o with
+    | 0 => simp [demo] at h; subst h; contradiction
+    | 1 => simp [demo] at h; subst h; exact ⟨.update, rfl⟩
+    | 2 => simp [demo] at h; subst h; exact ⟨.insert, rfl⟩
+    | n + 3 => simp [demo] at h
+  · intro o _; rfl
+
+def traceOf : Except Err State → Option (List Event)
+  | .ok s => some s.trace
+  | .error _ => none
+def limitInfo : Except Err State → Option (Bool × Nat)
+  | .error (.limit s) => some (s.modified, s.trace.length)
+  | _ => none
+
+example : traceOf (flush demoHooks (fun _ l => l) 100 demo) =
+    some [.before .update 1, .before .insert 2, .before .update 0, .before .insert 3,
+          .stmt .update 1, .stmt .insert 2, .stmt .update 0, .stmt .insert 3,
+          .after .update 1, .after .insert 2, .after .update 0, .after .insert 3,
+          .before .update 2, .stmt .update 2, .after .update 2] := by decide
+
+/-- an after-hook that modifies its object for ever: with a limit of 3 rounds, 3 complete rounds (2 objects each), then the error -/
+example : limitInfo (flushLoop { before := fun _ _ _ => [], after := fun _ _ o => [.modify o] } (fun _ l => l) 100 3 demo) = some (true, 18) := by
+  decide
+
 end PonyVerif.Props.C33
